@@ -16,5 +16,7 @@ func init() {
 func runC15(p *Program, r *Result) {
 	r.Rule("R15.1", "every failure reaches a non-zero exit: no error result is dropped in the CLI packages", 120)
 	checkNoDroppedErrors(p, r, []string{pkgCmdAge, pkgKeygen})
+	r.Rule("R15.6", "deferred closures do not overwrite the error being returned (a failed final flush/close must surface)", 0)
+	checkDeferredOverwrite(p, r, []string{pkgCmdAge, pkgKeygen})
 	checkCLIFiles(p, r)
 }
